@@ -31,7 +31,7 @@ def op_style(b, m):
 def make_wsdl(services):
     """services: [(name, [(portname, bindingkey)])]"""
     w = ['<?xml version="1.0"?><wsdl:definitions targetNamespace="%s" xmlns:wsdl="http://schemas.xmlsoap.org/wsdl/" '
-         'xmlns:w="%s" xmlns:x="%s" xmlns:soap="http://schemas.xmlsoap.org/wsdl/soap/" '
+         'xmlns:w="%s" xmlns:x="%s" xmlns:sb="urn:verif:not-the-bindings" xmlns:soap="http://schemas.xmlsoap.org/wsdl/soap/" '
          'xmlns:soap12="http://schemas.xmlsoap.org/wsdl/soap12/" '
          'xmlns:http="http://schemas.xmlsoap.org/wsdl/http/" xmlns:xsd="http://www.w3.org/2001/XMLSchema">'
          % (wsdlkit.WNS, wsdlkit.WNS, TNS)]
@@ -66,14 +66,16 @@ def make_wsdl(services):
                 w.append('<http:operation location="/%s"/><wsdl:input/>' % m)
             w.append('</wsdl:operation>')
         w.append('</wsdl:binding>')
-    for sname, ports in services:
-        w.append('<wsdl:service name="%s">' % sname)
+    for si, (sname, ports) in enumerate(services):
+        # (every second service names its bindings through a prefix it binds itself - one the root binds to something else)
+        own = si % 2 == 1
+        w.append('<wsdl:service name="%s"%s>' % (sname, ' xmlns:sb="%s"' % wsdlkit.WNS if own else ""))
         for pname, b in ports:
             if BINDINGS[b][0] is None:
                 addr = '<http:address location="http://h.invalid/%s/%s"/>' % (sname, pname)
             else:
                 addr = '<%s:address location="http://h.invalid/%s/%s"/>' % ("soap12" if b in SOAP12 else "soap", sname, pname)
-            w.append('<wsdl:port name="%s" binding="w:%s">%s</wsdl:port>' % (pname, b, addr))
+            w.append('<wsdl:port name="%s" binding="%s:%s">%s</wsdl:port>' % (pname, "sb" if own else "w", b, addr))
         w.append('</wsdl:service>')
     w.append('</wsdl:definitions>')
     return "".join(w).encode()
@@ -294,12 +296,42 @@ def run(ctx):
     ctx.sample({"services": metas[0][0], "steps": metas[0][3]})
 
 
+def unsupported_pair(ctx):
+    """document/encoded is a style/use pair suds has no binding for: a WSDL that declares it for a direction does not
+    load, or the direction has no binding - it is never presented and sent as another pair."""
+    for ui, uo in (("encoded", "literal"), ("literal", "encoded"), ("encoded", "encoded")):
+        enc = ' encodingStyle="http://schemas.xmlsoap.org/soap/encoding/"'
+        w = ('<?xml version="1.0"?><wsdl:definitions targetNamespace="%s" xmlns:wsdl="http://schemas.xmlsoap.org/wsdl/" '
+             'xmlns:w="%s" xmlns:soap="http://schemas.xmlsoap.org/wsdl/soap/" xmlns:xsd="http://www.w3.org/2001/XMLSchema">'
+             '<wsdl:message name="in"><wsdl:part name="a" type="xsd:string"/></wsdl:message>'
+             '<wsdl:message name="out"><wsdl:part name="r" type="xsd:string"/></wsdl:message><wsdl:portType name="PT">'
+             '<wsdl:operation name="o"><wsdl:input message="w:in"/><wsdl:output message="w:out"/></wsdl:operation>'
+             '</wsdl:portType><wsdl:binding name="B" type="w:PT"><soap:binding style="document" '
+             'transport="http://schemas.xmlsoap.org/soap/http"/><wsdl:operation name="o"><soap:operation soapAction="o" '
+             'style="document"/><wsdl:input><soap:body use="%s"%s/></wsdl:input><wsdl:output><soap:body use="%s"%s/>'
+             '</wsdl:output></wsdl:operation></wsdl:binding><wsdl:service name="S"><wsdl:port name="P" binding="w:B">'
+             '<soap:address location="http://h.invalid/S/P"/></wsdl:port></wsdl:service></wsdl:definitions>'
+             % (wsdlkit.WNS, wsdlkit.WNS, ui, enc if ui == "encoded" else "", uo, enc if uo == "encoded" else "")).encode()
+        meta = {"stream": "unsupported-pair", "input_use": ui, "output_use": uo}
+        ctx.case(common.canon(meta), True)
+        try:
+            c = wsdlkit.client(w, nosend=True)
+            m = c.service.o.method
+            got = [type(m.binding.input).__name__, type(m.binding.output).__name__]
+        except Exception as e:
+            continue                      # (does not load)
+        want = [{"literal": "Document", "encoded": "NoneType"}[ui], {"literal": "Document", "encoded": "NoneType"}[uo]]
+        if got != want:
+            ctx.fail("the binding used for a direction is not the style/use the WSDL declares for it", meta, got, want)
+
+
 def binding_kinds(ctx):
     """The binding style/use the WSDL declares, per direction: an operation whose input and output soap:body differ
     in use= is sent by the one and decoded by the other, through every selector form."""
     schema = ""
     ops = {"lit_enc": ("literal", "encoded"), "enc_lit": ("encoded", "literal"), "lit_lit": ("literal", "literal"),
            "enc_enc": ("encoded", "encoded")}
+    unsupported_pair(ctx)
     w = ['<?xml version="1.0"?><wsdl:definitions targetNamespace="%s" xmlns:wsdl="http://schemas.xmlsoap.org/wsdl/" '
          'xmlns:w="%s" xmlns:soap="http://schemas.xmlsoap.org/wsdl/soap/" xmlns:xsd="http://www.w3.org/2001/XMLSchema">'
          '<wsdl:message name="in"><wsdl:part name="a" type="xsd:string"/></wsdl:message>'
@@ -329,9 +361,9 @@ def binding_kinds(ctx):
                 got = [type(m.binding.input).__name__, type(m.binding.output).__name__]
             except Exception as e:
                 got = repr(e)
-            if got != [kind[ui], kind[uo]]:
-                ctx.fail("the binding used for a direction is not the style/use the WSDL declares for it", meta, got,
-                         [kind[ui], kind[uo]])
+            want = [kind[ui], kind[uo]]
+            if got != want:
+                ctx.fail("the binding used for a direction is not the style/use the WSDL declares for it", meta, got, want)
 
 
 def widen(ctx):
